@@ -253,8 +253,6 @@ structure Sem.Laws (S : Sem K) : Prop where
   /-- the finite named constants are positive, different from 1, representable and ordered -/
   named_fin : ∀ s, namedKnown s = true → s ≠ "posinf" → s ≠ "neginf" → s ≠ "nan" → s ≠ "undefined" →
       ∃ x, S.named s = some (.fin x) ∧ 0 < x ∧ x ≠ 1 ∧ S.rnd x = x
-  named_chain : ∃ a b c d, S.named "smallest_subnormal" = some (.fin a) ∧ S.named "smallest" = some (.fin b) ∧
-      S.named "eps" = some (.fin c) ∧ S.named "largest" = some (.fin d) ∧ 0 < a ∧ a < b ∧ b < c ∧ c < 1 ∧ 1 < d
 
 variable (S : Sem K)
 
